@@ -39,7 +39,7 @@ MANIFEST = {
         "design_ref": "DESIGN.md 3/C18",
     }
 }
-PROPS = ["Nstd.Codec.Props"]
+PROPS = ["Nstd.Codec.Props", "Nstd.Codec.PropsNum"]
 DRIVER = "drv_codec"
 LEAN_TARGETS = PROPS + [DRIVER]
 SOURCES = ["codec.cpp", C.REPO / "src/String.cpp", C.REPO / "src/Memory.cpp"]
@@ -141,6 +141,13 @@ INT = {"i32": (32, True), "u32": (32, False), "i64": (64, True), "u64": (64, Fal
 NUM_RX = re.compile(rb"[ \t\n\v\f\r]*([+-]?)([0-9]*)", re.S)
 
 
+def c_number(text):
+    """mathematical value of the number a C text starts with (C11 7.22.1.4 subject sequence, base 10); 0 when there is none"""
+    m = NUM_RX.match(text.split(b"\0")[0])
+    v = int(m.group(2) or b"0")
+    return -v if m.group(1) == b"-" else v
+
+
 def ref_line(line):
     t = line.split()
     op = t[0]
@@ -169,17 +176,52 @@ def ref_line(line):
             v = int(t[1], 16)
             if signed and v >= 1 << (bits - 1):
                 v -= 1 << bits
-            return f"{op} {v} {v % (1 << bits):0{bits // 4}x}"
+            return f"{op} {v} {v % (1 << bits):0{bits // 4}x} {v % (1 << bits):0{bits // 4}x}"
         if op[0] == "p" and op[1:] in INT:
             bits, signed = INT[op[1:]]
-            m = NUM_RX.match(unhx(t[1]))
-            v = int(m.group(2) or b"0")
-            if m.group(1) == b"-":
-                v = -v
-            lo, hi = (-(1 << (bits - 1)), (1 << (bits - 1)) - 1) if signed else (0, (1 << bits) - 1)
-            if lo <= v <= hi:
-                return f"{op} {v % (1 << bits):0{bits // 4}x}"
-            return None               # out of range: libc clamps / wraps, compared with the model only
+            v = c_number(unhx(t[1]))
+            if op == "pi32":
+                if not -(1 << 31) <= v < (1 << 31):
+                    return None       # atoi outside the int range: undefined by ISO C (glibc wraps): compared with the model only
+                r = v % (1 << 32)
+            elif op == "pi64":
+                r = max(-(1 << 63), min((1 << 63) - 1, v)) % (1 << 64)                # strtoll saturates
+            else:
+                r = M64 if abs(v) > M64 else v % (1 << 64)                              # strtoull: ULLONG_MAX / negated in the type
+                if op == "pu32":
+                    r %= 1 << 32                                                        # (uint) of the unsigned long
+            return f"{op} {r:0{bits // 4}x} {r:0{bits // 4}x}"
+        if op == "lcs":
+            v = c_number(unhx(t[2]))
+            fn = t[1]
+            if fn == "atoi":
+                return f"lcs {v % (1 << 32):08x}" if -(1 << 31) <= v < (1 << 31) else None
+            if fn in ("atol", "atoll", "strtol", "strtoll"):
+                return f"lcs {max(-(1 << 63), min((1 << 63) - 1, v)) % (1 << 64):016x}"
+            if fn in ("strtoul", "strtoull"):
+                return f"lcs {(M64 if abs(v) > M64 else v % (1 << 64)):016x}"
+            return None
+        if op == "lcf":
+            v, cap = int(t[2], 16), int(t[3])
+            if len(t[2]) != 16 or cap > 64:
+                return None
+            if t[1] in ("d", "u"):
+                v %= 1 << 32
+            if t[1] == "d" and v >= 1 << 31:
+                v -= 1 << 32
+            if t[1] == "lld" and v >= 1 << 63:
+                v -= 1 << 64
+            if t[1] not in ("d", "u", "lld", "llu"):
+                return None
+            text = str(v).encode()
+            return f"lcf {hx(text[:cap - 1] if cap else b'')} {len(text)}"
+        if op == "cls":
+            b = int(t[1])
+            c = bytes([b])
+            printable = 32 <= b <= 126
+            fl = [c.isspace(), c.isalnum(), c.isalpha(), c.isdigit(), c.islower(), printable, printable and b != 32 and not c.isalnum(),
+                  c.isupper(), c in b"0123456789abcdefABCDEF"]
+            return f"cls {''.join('1' if x else '0' for x in fl)} {c.lower()[0]} {c.upper()[0]}"
     except (ValueError, IndexError):
         return None
     return None
@@ -296,7 +338,37 @@ def rand_numtext(rng, bits):
     else:
         digits = b""
     tail = rng.choice([b"", b"", b"", b"x", b" 1", b".5", b"e3", b"-", b"\xff", b"\x00" + b"7"])
+    if rng.random() < 0.06:
+        sign = rng.choice([b"+-", b"-+", b"--", b"- ", b"+ ", b"\x00", b"\x80"])     # no number: a sign not followed by a digit
     return ws + sign + digits + tail
+
+
+LC_FNS = ["atoi", "atol", "atoll", "strtol", "strtoul", "strtoll", "strtoull"]
+
+
+def libc_lines(ctx):
+    """the libc functions String.cpp builds on, called directly: boundaries of every width, random 64-bit values, malformed text"""
+    rng, quick = ctx.rng, ctx.tier == "quick"
+    texts = [b"", b" ", b"-", b"+", b"0", b"-0", b"+0", b"00", b"x", b"-x", b"+-1", b"-+1", b" \t\n\v\f\r12", b"\x1c1", b"\xa01", b"1 2", b"12abc",
+             b"0x10", b"010", b"1e3", b"1.9", b"-1.9", b"9" * 30, b"-" + b"9" * 30, b"0" * 40 + b"7", b"7\x007"]
+    for bits in (31, 32, 63, 64):
+        for d in (-2, -1, 0, 1, 2):
+            for sg in (b"", b"-", b"+"):
+                texts.append(sg + str((1 << bits) + d).encode())
+    for k in range(1, 22):
+        texts += [str(10 ** k + d).encode() for d in (-1, 0)] + [b"-" + str(10 ** k).encode()]
+    for w in (32, 64):
+        texts += [rand_numtext(rng, w) for _ in range(150 if quick else 4000)]
+    texts += [rng.choice([b"", b"-"]) + str(rng.getrandbits(64)).encode() for _ in range(150 if quick else 4000)]
+    lines = [f"lcs {fn} {hx(t)}" for t in texts for fn in LC_FNS]
+    vals = {0, 1, 9, 10, M64, 1 << 63, (1 << 63) - 1, (1 << 63) + 1, 1 << 31, (1 << 31) - 1, (1 << 32) - 1, 1 << 32, 0xFFFFFFFF80000000}
+    vals |= {rng.getrandbits(64) for _ in range(100 if quick else 3000)} | {10 ** k for k in range(1, 20)} | {M64 + 1 - 10 ** k for k in range(1, 19)}
+    for v in sorted(vals):
+        for conv in ("d", "u", "lld", "llu"):
+            lines.append(f"lcf {conv} {v:016x} 64")
+            lines.append(f"lcf {conv} {v:016x} {rng.choice([0, 1, 2, 3, 5, 10, 11, 12, 19, 20, 21, 22])}")
+    lines += [f"cls {b}" for b in range(256)]
+    return lines
 
 
 def chunked(lines, n):
@@ -347,6 +419,8 @@ def build_streams(ctx):
         singles += [f"f{w} {v % (1 << bits):0{bits // 4}x}" for v in vs]
         singles += [f"p{w} {hx(rand_numtext(rng, bits))}" for _ in range(600 if quick else 15000)]
         singles += [f"p{w} {hx(str(v).encode())}" for v in vs[:: 7]]
+    nlc = libc_lines(ctx)
+    singles += nlc
     ctx.cov["rule"] = (
         f"TEST of the model/code tie (not the proof): all 1,114,112 code points in {0x110000 // B} batches of {B} (+ batches above U+10FFFF) "
         "through toString/fromString/isValid/length, compared by count + FNV-1a digest with the model and with Python's utf-8 codec; "
@@ -537,7 +611,7 @@ def spec_test(ctx, driver):
                       f"{l}\n# lean spec: {o}\n# python   : {w}\n", no_input=True)
 
 
-FLOAT_RX = re.compile(rb"[ \t\n\v\f\r]*([+-]?(?:[0-9]+\.?[0-9]*(?:[eE][+-]?[0-9]+)?|\.[0-9]+(?:[eE][+-]?[0-9]+)?))", re.S)
+FLOAT_RX = re.compile(rb"[ \t\n\v\f\r]*([+-]?(?:[0-9]+\.?[0-9]*(?:[eE][+-]?[0-9]+)?|\.[0-9]+(?:[eE][+-]?[0-9]+)?|[iI][nN][fF]|[nN][aA][nN]))", re.S)
 
 
 def double_ref(line):
@@ -546,10 +620,16 @@ def double_ref(line):
         txt = unhx(t[1]).split(b"\0")[0]
         m = FLOAT_RX.match(txt)
         v = float(m.group(1)) if m else 0.0
-        return "pd " + struct.pack(">d", v).hex()
+        b = struct.pack(">d", v).hex()
+        if v != v:                                # NaN: the sign bit follows the sign of the text, quiet NaN payload
+            b = ("fff8" if m.group(1).startswith(b"-") else "7ff8") + "0" * 12
+        return f"pd {b} {b}"
     v = struct.unpack(">d", bytes.fromhex(t[1]))[0]
+    if v != v:
+        text = "-nan" if int(t[1], 16) >> 63 else "nan"
+        return f"fd {text} {'fff8' if text[0] == '-' else '7ff8'}{'0' * 12} 1"
     text = "%f" % v
-    return f"fd {text} " + struct.pack(">d", float(text)).hex()
+    return f"fd {text} " + struct.pack(">d", float(text)).hex() + f" {1 if len(text) < 203 else 0}"
 
 
 def double_lines(ctx):
@@ -562,42 +642,66 @@ def double_lines(ctx):
         k = rng.random()
         ip = str(rng.getrandbits(rng.randrange(1, 70))).encode()
         fp = str(rng.getrandbits(rng.randrange(1, 60))).encode()
-        body = ip if k < 0.3 else ip + b"." + fp if k < 0.6 else b"." + fp if k < 0.7 else ip + b"." if k < 0.75 else ip + b"." + fp + rng.choice([b"e", b"E"]) + rng.choice([b"", b"+", b"-"]) + str(rng.randrange(0, 320)).encode() if k < 0.95 else b""
-        tail = rng.choice([b"", b"", b"", b" 1", b"abc", b"..", b"-", b"\xff", b"\x00" + b"7"])
+        body = ip if k < 0.3 else ip + b"." + fp if k < 0.6 else b"." + fp if k < 0.7 else ip + b"." if k < 0.75 else ip + b"." + fp + rng.choice([b"e", b"E"]) + rng.choice([b"", b"+", b"-"]) + str(rng.randrange(0, 320)).encode() if k < 0.93 else rng.choice([b"inf", b"INF", b"nan", b"NaN", b"infinity"]) if k < 0.95 else b""
+        tail = rng.choice([b"", b"", b"", b" 1", b"abc", b"..", b"-", b"e", b"e+", b"\xff", b"\x00" + b"7"])
         lines.append(f"pd {hx(ws + sign + body + tail)}")
+    # halfway cases of the decimal -> binary rounding and the subnormal / overflow boundaries
+    for txt in (b"9007199254740993", b"9007199254740995", b"18014398509481985", b"1.7976931348623157e308", b"1.7976931348623159e308",
+                b"1.8e308", b"4.9e-324", b"2.4703282292062327e-324", b"2.4703282292062328e-324", b"2.2250738585072014e-308",
+                b"2.2250738585072011e-308", b"1e-400", b"1e400", b"-0", b"-0.0e5", b"0e999999", b".", b"-.", b"e5", b"1e", b"1e+", b"-inf", b"+nan", b"-nan"):
+        lines.append(f"pd {hx(txt)}")
     for _ in range(n):
         k = rng.random()
-        if k < 0.5:
+        if k < 0.3:
             v = rng.uniform(-1e6, 1e6)
-        elif k < 0.8:
+        elif k < 0.55:
             v = math.ldexp(rng.random() - 0.5, rng.randrange(-60, 1000))
+        elif k < 0.7:
+            v = float(rng.randrange(-(1 << 53), 1 << 53))                       # integers: %f is exact (double_roundtrip_exact)
+        elif k < 0.8:
+            v = rng.randrange(-(1 << 40), 1 << 40) / 64.0                       # multiples of 1/64: exact as well
+        elif k < 0.9:
+            v = (rng.randrange(1 << 20) * 2 + 1) / float(1 << rng.randrange(7, 12))   # ties of the sixth decimal
         else:
-            v = rng.choice([0.0, -0.0, 1.0, -1.0, 0.5, 1e-7, 123456789.125, 1.7976931348623157e308, -1.7976931348623157e308, 5e-324, 0.1, 1e22, 1e23])
+            v = rng.choice([0.0, -0.0, 1.0, -1.0, 0.5, 1e-7, 123456789.125, 1.7976931348623157e308, -1.7976931348623157e308, 5e-324, 0.1, 1e22, 1e23,
+                            0.0078125, 0.0000005, 0.0000015, 0.0000025, 1e202, 9.99e201, float("inf"), float("-inf"), float("nan")])
         lines.append("fd " + struct.pack(">d", v).hex())
+    lines.append("fd fff8000000000000")
     return lines
 
 
-def double_test(ctx, harness, lines=None):
-    """toDouble (member + static) and fromDouble are libc wrappers outside the integer theorems; they are driven
-    on the real code and compared with Python's float (both correctly rounded): harness vs reference only."""
+def double_test(ctx, harness, lines=None, driver=None):
+    """toDouble (member + static) and fromDouble: the real code, the model (`%f` as a Lean definition; `strtod` = the executable
+    correctly rounding reference of the driver) and Python's float / '%f' (both correctly rounded) on the same lines"""
     lines = double_lines(ctx) if lines is None else lines
     if not lines:
         return
     out, rc, err = C.run_lines(harness, lines, timeout=300)
+    mout = None
+    if driver is not None:
+        mout, _, merr = C.run_lines(driver, lines, timeout=300)
     ctx.cov["evaluations"] += len(out)
     ctx.cov["double_lines_checked_against_python"] = len(lines)
     bad = None
+    second = 0
     for k, l in enumerate(lines):
         o = out[k] if k < len(out) else None
         w = double_ref(l)
+        mo = (mout[k] if k < len(mout) else None) if mout is not None else o
+        if o is not None and l.startswith("fd") and o.endswith(" 0"):
+            second += 1
         if o != w:
-            bad = (l, o, w)
+            bad = ("impl-vs-reference", l, o, w)
             break
-    ctx.log(f"double stream: {len(lines)} toDouble/fromDouble lines vs Python, {'1+' if bad else 0} mismatch(es)")
+        if mo != o:
+            bad = ("impl-vs-model", l, o, mo)
+            break
+    ctx.cov.setdefault("branch_hits", {})["String::printf second attempt (text >= capacity)"] = second
+    ctx.log(f"double stream: {len(lines)} toDouble/fromDouble lines vs model and Python, {'1+' if bad else 0} mismatch(es); printf second branch taken {second}x")
     if bad:
-        l, o, w = bad
-        ctx.violation("impl-vs-reference on stream 'codec-double'", f"{l}\n# impl: {o if o is not None else '<no output: crash> ' + err[-800:]}\n# ref : {w}\n",
-                      signature="impl-vs-reference:" + l.split()[0])
+        kind, l, o, w = bad
+        ctx.violation(f"{kind} on stream 'codec-double'", f"{l}\n# impl: {o if o is not None else '<no output: crash> ' + err[-800:]}\n# {'ref ' if kind == 'impl-vs-reference' else 'model'}: {w}\n",
+                      signature=kind + ":" + l.split()[0], no_input=(kind == "impl-vs-model"))
 
 
 def check(ctx):
@@ -620,7 +724,7 @@ def check(ctx):
             singles += [f"b64 {hx(rand_b64(ctx.rng))}" for _ in range(20000)] + [f"dec {hx(rand_utf8ish(ctx.rng))}" for _ in range(20000)]
         run_streams(ctx, harness, C.driver_path(DRIVER), batches, singles, C.load_corpus(ctx.prop))
         spec_test(ctx, C.driver_path(DRIVER))
-        double_test(ctx, harness)
+        double_test(ctx, harness, driver=C.driver_path(DRIVER))
     finally:
         try:
             harness.unlink()
@@ -633,7 +737,7 @@ def replay(ctx, path):
     gen(ctx)
     harness = C.build_harness(ctx, "codec", SOURCES)
     C.lake_build([DRIVER])
-    double_test(ctx, harness, [l for l in h if l.split()[0] in ("pd", "fd")])
+    double_test(ctx, harness, [l for l in h if l.split()[0] in ("pd", "fd")], driver=C.driver_path(DRIVER))
     h = [l for l in h if l.split()[0] not in ("pd", "fd")]
     diffs = C.differential(ctx, harness, C.driver_path(DRIVER), [h], reference, C.default_eq) if h else []
     for d in diffs:
